@@ -128,6 +128,20 @@ class Lib:
         memo[name] = d
         return d
 
+    def captures(self) -> bool:
+        """Some macro has a parameter P, and a macro nested below it (a callee of a callee ...) passes the literal text P
+        - its own variable of that name, not a parameter - on to one of its callees."""
+        for m in self.macros.values():
+            below = self.reachable(m.callees)
+            for p in m.params:
+                for d in below:
+                    dm = self.macros[d]
+                    if p in dm.params:
+                        continue
+                    if any(p in args for args in dm.arg_plan):
+                        return True
+        return False
+
     def reachable(self, roots=None) -> set[str]:
         roots = [n for n, _ in self.main_calls] if roots is None else roots
         seen: set[str] = set()
@@ -167,6 +181,10 @@ def _args(rng: random.Random, n: int, own_params: list[str], intlike_first: bool
     return out
 
 
+def seeds_random_flag(rng: random.Random) -> bool:
+    return rng.random() < 0.08
+
+
 SHAPES = ["chain", "diamond", "two_depths", "shared_callee", "random", "random", "wide", "design_case"]
 
 
@@ -174,6 +192,11 @@ def gen_lib(rng: random.Random, shape: str | None = None, n: int | None = None) 
     lib = Lib()
     shape = shape or rng.choice(SHAPES)
     lib.shape = shape
+    # a few libraries name a parameter like the game variable that other macros use literally (known finding of C05:
+    # the parameter of an outer macro captures that variable in the bodies of nested callees); kept out of all other
+    # libraries so that they stay clean of it
+    capturing = seeds_random_flag(rng)
+    lib.capturing = capturing
     names: list[str]
     edges: dict[str, list[str]] = {}
     if shape == "design_case":
@@ -214,7 +237,12 @@ def gen_lib(rng: random.Random, shape: str | None = None, n: int | None = None) 
             if edges[nm] and rng.random() < 0.2:
                 edges[nm].append(rng.choice(edges[nm]))  # the same callee called twice
     for nm in names:
-        m = Macro(nm, [f"$p{j}" for j in range(rng.randint(0, 2))], list(edges[nm]))
+        # parameter names: plain, one a prefix of the other (either order), or named like a variable that callers
+        # pass literally
+        scheme = rng.choice([["$p0", "$p1"], ["$p0", "$p1"], ["$a", "$ab"], ["$ab", "$a"]])
+        if capturing and rng.random() < 0.5:
+            scheme = ["$VAR_B", "$v"]
+        m = Macro(nm, scheme[: rng.randint(0, 2)], list(edges[nm]))
         m.early_return = rng.random() < 0.3
         m.label = rng.random() < 0.15
         m.posmark = rng.random() < 0.2
@@ -362,14 +390,23 @@ def _rel_import(from_dir: str, to_file: str) -> str:
     return r if r.startswith("..") else "./" + r
 
 
-def render_file(lib: Lib, macros: list[str], imports: list[str], variants: dict[str, str], with_main: bool) -> str:
-    parts = [f'import "{i}";' for i in imports]
+def render_file(lib: Lib, macros: list[str], imports: list[str], variants: dict[str, str], with_main: bool, style: str = "plain") -> str:
+    """style: plain | comments (comments and blank lines between the import statements, single-quoted paths) | crlf"""
+    if style == "comments":
+        parts = []
+        for n, i in enumerate(imports):
+            parts += [f"// import number {n}", "", f"import '{i}'; /* trailing */" if n % 2 else f'import "{i}";']
+    else:
+        parts = [f'import "{i}";' for i in imports]
     if parts:
         parts.append("")
     parts += [lib.body(lib.macros[nm], variants.get(nm, "a")) + "\n" for nm in macros]
     if with_main:
         parts.append(lib.main_body())
-    return "\n".join(parts) + "\n"
+    text = "\n".join(parts) + "\n"
+    if style == "crlf":
+        text = text.replace("\n", "\r\n")
+    return text
 
 
 def gen_world(lib: Lib, rng: random.Random, knobs: dict | None = None) -> World:
@@ -493,7 +530,9 @@ def gen_world(lib: Lib, rng: random.Random, knobs: dict | None = None) -> World:
         w.file_of[nm] = paths[i]
         w.variant_of[nm] = "a"
     for p, info in w.files.items():
-        w.vfs.write(p, render_file(lib, info["macros"], [t for _, t, _ in info["imports"]], w.variant_of, p == paths[0]))
+        style = rng.choice(["plain", "plain", "plain", "comments", "crlf"]) if k.get("styles", True) else "plain"
+        info["style"] = style
+        w.vfs.write(p, render_file(lib, info["macros"], [t for _, t, _ in info["imports"]], w.variant_of, p == paths[0], style))
     for dp, j in decoys:
         if dp in w.vfs.nodes or dp in used:
             continue
@@ -502,6 +541,18 @@ def gen_world(lib: Lib, rng: random.Random, knobs: dict | None = None) -> World:
         w.vfs.write(dp, render_file(lib, info["macros"], [t if t.startswith("/") else _abs_of(paths[j], t, tt) for _, t, tt in info["imports"]],
                                     {nm: "decoy" for nm in info["macros"]}, False))
         w.notes.append(f"decoy {dp} shadows nothing (later lookup path / unlisted dir)")
+    # lookup paths as a caller may spell them: with a trailing slash, a `.` segment, or through `..`
+    spelled = []
+    for lp in w.lookup:
+        c = rng.random()
+        if c < 0.1:
+            lp = lp + "/"
+        elif c < 0.2:
+            lp = lp + "/."
+        elif c < 0.3 and lp.count("/") > 1:
+            lp = posixpath.dirname(lp) + "/../" + posixpath.basename(posixpath.dirname(lp)) + "/" + posixpath.basename(lp)
+        spelled.append(lp)
+    w.lookup = spelled
     if k["main_via_symlink"]:
         w.vfs.symlink("/proj/S", "/proj/SCRIPT")
         w.main = "/proj/S/main.exps"
